@@ -108,7 +108,7 @@ private def exD : Durable :=
     log := [⟨1, 1, 0, 11, []⟩, ⟨2, 1, 0, 99, []⟩], low := 1, high := 2, staged := 0, snaps := [] }
 private def exV : Vol := { emptyVol with term := 1, lastLogIdx := 2, lastLogTerm := 1 }
 private def exA : AEReq := { leader := 12, leaderId := 2, term := 1, prevIdx := 1, prevTerm := 1, commit := 2, entries := [] }
-example : (aePlan ⟨false, false, 3, 4⟩ exD exV exA).final.vol.commit = 1 ∧
-    (aePlan ⟨false, false, 3, 4⟩ exD exV exA).final.fsm = [.apply 1 1 11] := by decide
+example : (aePlan ⟨false, false, 3, 4, false⟩ exD exV exA).final.vol.commit = 1 ∧
+    (aePlan ⟨false, false, 3, 4, false⟩ exD exV exA).final.fsm = [.apply 1 1 11] := by decide
 
 end SV
